@@ -12,6 +12,13 @@
 //!          | whp <a>                       registry::where_is_pid
 //!     output: (history, results)  history = list of `ev` terms of Registry/Model.v in the order
 //!     they happened; results = per actor Ok | AlreadyRegistered | StartupFailed | Pending
+//!   thr <op> ; <op> ; ...         controlled OS threads: every actor on its own thread + runtime, parked by
+//!                                `ractor::actor::verif::point` at new.after_name (name registered, pid not yet),
+//!                                status.after_publish (>= Stopping published, nothing removed yet),
+//!                                cleanup.after_pid (pid removed, name not yet)
+//!     op ::= tsp <a> <name> <none|name> | tstop <a> <none|publish|pid|both> | res <a> | twait <a>
+//!          | wh <name> | whp <a>
+//!     output: (history, results) as for `hist`
 //!   race <k> <rounds>            k OS threads spawn the same fresh name at the same time (shared
 //!                                multi-thread runtime); output: list of (k, ok, already, other, where_winner, respawn_ok)
 //!   hammer <threads> <names> <iters>   threads loop spawn(name)/lookup/stop/wait/lookup on a few names;
@@ -275,6 +282,279 @@ async fn run_hist(rest: &str) -> String {
     format!("({}, {})", coq_list(&h), coq_list(&results))
 }
 
+// ------------------------------------------------------------------------------------------
+// controlled-thread engine
+mod thr {
+    use super::*;
+    use std::cell::Cell;
+    use std::collections::{HashSet, VecDeque};
+    use std::sync::{Condvar, OnceLock};
+
+    #[derive(Clone, Copy, Debug, PartialEq)]
+    pub enum Ev {
+        Paused(&'static str),
+        Spawned(&'static str),
+        Exited,
+    }
+    #[derive(Default)]
+    pub struct CtlState {
+        plans: HashMap<u64, Vec<&'static str>>,
+        resume: HashSet<u64>,
+        events: HashMap<u64, VecDeque<Ev>>,
+        cells: HashMap<u64, Arc<Mutex<Option<ActorCell>>>>,
+    }
+    pub struct Ctl {
+        st: Mutex<CtlState>,
+        cv: Condvar,
+    }
+    thread_local! { static ROLE: Cell<Option<u64>> = const { Cell::new(None) }; }
+    static CTL: OnceLock<Arc<Ctl>> = OnceLock::new();
+
+    fn ctl() -> Arc<Ctl> {
+        CTL.get_or_init(|| {
+            let c = Arc::new(Ctl { st: Mutex::new(CtlState::default()), cv: Condvar::new() });
+            let c2 = c.clone();
+            ractor::actor::verif::set_point_hook(Some(Arc::new(move |label| c2.at_point(label))));
+            c
+        })
+        .clone()
+    }
+
+    impl Ctl {
+        fn at_point(&self, label: &'static str) {
+            let Some(role) = ROLE.with(|r| r.get()) else { return };
+            let mut st = self.st.lock().unwrap();
+            let planned = st.plans.get(&role).map(|p| p.contains(&label)).unwrap_or(false);
+            if !planned {
+                return;
+            }
+            if label == "status.after_publish" {
+                // only the actor's own first publication of >= Stopping
+                let stopping = st
+                    .cells
+                    .get(&role)
+                    .and_then(|c| c.lock().unwrap().as_ref().map(|c| c.get_status() == ActorStatus::Stopping))
+                    .unwrap_or(false);
+                if !stopping {
+                    return;
+                }
+            }
+            st.plans.get_mut(&role).unwrap().retain(|l| *l != label);
+            st.events.entry(role).or_default().push_back(Ev::Paused(label));
+            self.cv.notify_all();
+            while !st.resume.contains(&role) {
+                st = self.cv.wait(st).unwrap();
+            }
+            st.resume.remove(&role);
+        }
+        fn push(&self, role: u64, ev: Ev) {
+            let mut st = self.st.lock().unwrap();
+            st.events.entry(role).or_default().push_back(ev);
+            self.cv.notify_all();
+        }
+        fn wait_event(&self, role: u64) -> Ev {
+            let mut st = self.st.lock().unwrap();
+            loop {
+                if let Some(e) = st.events.entry(role).or_default().pop_front() {
+                    return e;
+                }
+                st = self.cv.wait(st).unwrap();
+            }
+        }
+        fn resume(&self, role: u64) {
+            let mut st = self.st.lock().unwrap();
+            st.resume.insert(role);
+            self.cv.notify_all();
+        }
+    }
+
+    enum Cmd {
+        Stop,
+        Finish,
+    }
+
+    struct T {
+        cell: Arc<Mutex<Option<ActorCell>>>,
+        cmd: tokio::sync::mpsc::UnboundedSender<Cmd>,
+        thread: Option<std::thread::JoinHandle<()>>,
+        last: Ev,
+        result: &'static str,
+        name: u64,
+    }
+
+    pub fn run(rest: &str) -> String {
+        let sid = SCN.fetch_add(1, Ordering::SeqCst);
+        let pid = std::process::id();
+        let nm = |k: u64| format!("c10t-{pid}-{sid}-{k}");
+        let c = ctl();
+        *c.st.lock().unwrap() = CtlState::default();
+        let mut ts: HashMap<u64, T> = HashMap::new();
+        let mut order: Vec<u64> = Vec::new();
+        let mut hist: Vec<String> = Vec::new();
+
+        for op in rest.split(';') {
+            let w: Vec<&str> = op.split_whitespace().collect();
+            if w.is_empty() {
+                continue;
+            }
+            match w[0] {
+                "tsp" => {
+                    let a: u64 = w[1].parse().unwrap();
+                    let k: u64 = w[2].parse().unwrap();
+                    let slot: Arc<Mutex<Option<ActorCell>>> = Arc::new(Mutex::new(None));
+                    {
+                        let mut st = c.st.lock().unwrap();
+                        st.cells.insert(a, slot.clone());
+                        if w[3] == "name" {
+                            st.plans.entry(a).or_default().push("new.after_name");
+                        }
+                    }
+                    let (tx, mut rx) = tokio::sync::mpsc::unbounded_channel::<Cmd>();
+                    let (c2, slot2, name) = (c.clone(), slot.clone(), nm(k));
+                    let th = std::thread::spawn(move || {
+                        ROLE.with(|r| r.set(Some(a)));
+                        let rt = tokio::runtime::Builder::new_current_thread().enable_time().build().expect("rt");
+                        rt.block_on(async move {
+                            let cfg = Cfg { pre_gate: None, pre_ok: Arc::new(Mutex::new(true)), ps_gate: None, slot: slot2 };
+                            match Actor::spawn(Some(name), H, cfg).await {
+                                Ok((r, handle)) => {
+                                    c2.push(a, Ev::Spawned("Ok"));
+                                    let mut handle = Some(handle);
+                                    while let Some(cmd) = rx.recv().await {
+                                        match cmd {
+                                            Cmd::Stop => {
+                                                r.stop(None);
+                                                if let Some(h) = handle.take() {
+                                                    let _ = h.await;
+                                                }
+                                                c2.push(a, Ev::Exited);
+                                            }
+                                            Cmd::Finish => {
+                                                r.kill();
+                                                if let Some(h) = handle.take() {
+                                                    let _ = h.await;
+                                                }
+                                                break;
+                                            }
+                                        }
+                                    }
+                                }
+                                Err(SpawnErr::ActorAlreadyRegistered(_)) => c2.push(a, Ev::Spawned("AlreadyRegistered")),
+                                Err(_) => c2.push(a, Ev::Spawned("Other")),
+                            }
+                        });
+                    });
+                    let e = c.wait_event(a);
+                    let (ok, res) = match e {
+                        Ev::Spawned("AlreadyRegistered") => (false, "AlreadyRegistered"),
+                        Ev::Spawned(r) => (true, r),
+                        _ => (true, "Pending"),
+                    };
+                    hist.push(format!("ESpawn {a} (Some {k}%N) false {}", coq_bool(ok)));
+                    if e == Ev::Spawned("Ok") {
+                        hist.push(format!("EPid {a}"));
+                    }
+                    ts.insert(a, T { cell: slot, cmd: tx, thread: Some(th), last: e, result: res, name: k });
+                    order.push(a);
+                }
+                "res" => {
+                    let a: u64 = w[1].parse().unwrap();
+                    let t = ts.get_mut(&a).unwrap();
+                    if matches!(t.last, Ev::Paused(_)) {
+                        c.resume(a);
+                        let e = c.wait_event(a);
+                        if let Ev::Spawned(r) = e {
+                            t.result = r;
+                            if r == "Ok" {
+                                hist.push(format!("EPid {a}"));
+                            }
+                        }
+                        t.last = e;
+                    }
+                }
+                "tstop" => {
+                    let a: u64 = w[1].parse().unwrap();
+                    let t = ts.get_mut(&a).unwrap();
+                    if t.last != Ev::Spawned("Ok") {
+                        continue;
+                    }
+                    {
+                        let mut st = c.st.lock().unwrap();
+                        let p = st.plans.entry(a).or_default();
+                        if matches!(w[2], "publish" | "both") {
+                            p.push("status.after_publish");
+                        }
+                        if matches!(w[2], "pid" | "both") {
+                            p.push("cleanup.after_pid");
+                        }
+                    }
+                    hist.push(format!("EBegin {a}"));
+                    t.cmd.send(Cmd::Stop).unwrap();
+                    t.last = c.wait_event(a);
+                }
+                "twait" => {
+                    let a: u64 = w[1].parse().unwrap();
+                    let t = &ts[&a];
+                    if t.last == Ev::Exited {
+                        let cell = t.cell.lock().unwrap().clone().expect("cell");
+                        let _ = futures::executor::block_on(cell.wait(None));
+                        hist.push(format!("EWait {a}"));
+                    }
+                }
+                "wh" => {
+                    let k: u64 = w[1].parse().unwrap();
+                    let r = registry::where_is(nm(k));
+                    let t = match r {
+                        None => "None".to_string(),
+                        Some(cell) => {
+                            let by_id = ts.iter().find(|(_, t)| {
+                                t.cell.lock().unwrap().as_ref().map(|x| x.get_id() == cell.get_id()).unwrap_or(false)
+                            });
+                            // a spawn parked between its name and its pid registration has no slot yet
+                            let idx = match by_id {
+                                Some((a, _)) => *a,
+                                None => ts
+                                    .iter()
+                                    .find(|(_, t)| t.last == Ev::Paused("new.after_name") && t.name == k)
+                                    .map(|(a, _)| *a)
+                                    .unwrap_or(999),
+                            };
+                            format!("(Some ({idx}, {}))", cls(cell.get_status()))
+                        }
+                    };
+                    hist.push(format!("EWhere {k}%N {t}"));
+                }
+                "whp" => {
+                    let a: u64 = w[1].parse().unwrap();
+                    let Some(cell) = ts[&a].cell.lock().unwrap().clone() else { continue };
+                    let t = match registry::where_is_pid(cell.get_id()) {
+                        None => "None".to_string(),
+                        Some(c2) => format!("(Some {})", cls(c2.get_status())),
+                    };
+                    hist.push(format!("EWherePid {a} {t}"));
+                }
+                o => panic!("bad thr op {o}"),
+            }
+        }
+        let results: Vec<String> = order.iter().map(|a| ts[a].result.to_string()).collect();
+        // release everything
+        for a in &order {
+            let t = ts.get_mut(a).unwrap();
+            while matches!(t.last, Ev::Paused(_)) {
+                c.resume(*a);
+                t.last = c.wait_event(*a);
+            }
+            let _ = t.cmd.send(Cmd::Finish);
+        }
+        for a in &order {
+            if let Some(th) = ts.get_mut(a).unwrap().thread.take() {
+                let _ = th.join();
+            }
+        }
+        format!("({}, {})", coq_list(&hist), coq_list(&results))
+    }
+}
+
 struct Plain;
 impl Actor for Plain {
     type Msg = ();
@@ -427,6 +707,7 @@ fn main() {
                     .expect("runtime");
                 out.push(rt.block_on(run_hist(rest)));
             }
+            "thr" => out.push(thr::run(rest)),
             "race" | "hammer" => {
                 let rt = mt.get_or_insert_with(|| {
                     tokio::runtime::Builder::new_multi_thread().worker_threads(4).enable_time().build().expect("mt runtime")
